@@ -8,7 +8,7 @@ package snapstate_test
 // refresh.retain so that revisions pile up), removal of single revisions,
 // disable/enable — interleaved with *revert probes*.  A probe is a revert request with
 //
-//	target ∈ {default (previous), a kept revision, the current revision, a revision that is not kept}
+//	target ∈ {default (previous), a kept revision (before or after current), the current revision, a revision that is not kept}
 //	× {blocking, NotBlocked} × {snap active, snap disabled} (+ devmode/jailmode flags),
 //
 // followed by a look at the next "refresh everything" request.
@@ -45,7 +45,7 @@ import (
 )
 
 type c13Probe struct {
-	Target     string `json:"target"` // default | kept | current | absent
+	Target     string `json:"target"` // default | kept | next (the one after current, else as kept) | current | absent
 	Pick       int    `json:"pick,omitempty"`
 	NotBlocked bool   `json:"notblocked,omitempty"`
 	Disabled   bool   `json:"disabled,omitempty"` // the snap is disabled when the request arrives (enabled again afterwards)
@@ -71,7 +71,7 @@ type c13Case struct {
 
 func c13GenProbe(t *rapid.T) *c13Probe {
 	p := &c13Probe{
-		Target:     rapid.SampledFrom([]string{"default", "default", "default", "kept", "kept", "kept", "kept", "current", "absent"}).Draw(t, "target"),
+		Target:     rapid.SampledFrom([]string{"default", "default", "default", "kept", "kept", "kept", "next", "next", "current", "absent"}).Draw(t, "target"),
 		Pick:       rapid.IntRange(0, 7).Draw(t, "pick"),
 		NotBlocked: rapid.Bool().Draw(t, "notblocked"),
 		Disabled:   rapid.IntRange(0, 7).Draw(t, "disabled") == 0,
@@ -103,13 +103,21 @@ func c13Gen(t *rapid.T) c13Case {
 	}
 	n := rapid.IntRange(2, verifkit.Size(8, 12)).Draw(t, "nsteps")
 	for i := 0; i < n; i++ {
-		kind := rapid.SampledFrom([]string{"probe", "probe", "probe", "probe", "probe", "refresh", "refresh", "refresh-kept", "refresh-kept", "remove-rev", "disable-enable", "set-retain"}).Draw(t, "kind")
+		kind := rapid.SampledFrom([]string{"probe", "probe", "probe", "probe", "probe", "there-and-back", "refresh", "refresh", "refresh-kept", "refresh-kept", "remove-rev", "disable-enable", "set-retain"}).Draw(t, "kind")
 		if i == n-1 {
 			kind = "probe"
 		}
 		switch kind {
 		case "probe":
 			cs.Steps = append(cs.Steps, c13Step{Probe: c13GenProbe(t)})
+		case "there-and-back":
+			// revert, go forward again to the reverted-from revision, revert once more:
+			// the second revert decides anew whether that revision is blocked
+			for _, target := range []string{"default", "next", "default"} {
+				p := c13GenProbe(t)
+				p.Target, p.Disabled, p.Run = target, false, false
+				cs.Steps = append(cs.Steps, c13Step{Probe: p})
+			}
 		case "refresh":
 			r := worldReq{Op: "refresh"}
 			if rapid.IntRange(0, 3).Draw(t, "anyrev") == 0 {
@@ -316,6 +324,13 @@ func (r *c13Run) probe(p c13Probe) error {
 		} else {
 			reason = "no-previous"
 		}
+	case "next":
+		// the revision right after current (a forward revert, possible after an earlier revert)
+		if ci+1 < len(before.Seq) {
+			target = before.Seq[ci+1]
+			break
+		}
+		fallthrough
 	case "kept":
 		if len(others) == 0 {
 			p.Target, target, reason = "current", before.Current, "current"
@@ -397,6 +412,10 @@ func (r *c13Run) probe(p c13Probe) error {
 		}
 		if len(diffs) > 0 {
 			return verifkit.Violatef("C13: %s did not switch in place:\n    %s\n  before %s\n  after  %s", desc, strings.Join(diffs, "\n    "), before, after)
+		}
+		if r.model.marks[before.Current] && !p.NotBlocked {
+			// the reverted-from revision still carries the mark of an earlier NotBlocked revert
+			r.classes["blocking-revert-from-marked"] = true
 		}
 		r.model.reverted(before.Current, p.NotBlocked)
 		r.trail = append(r.trail, fmt.Sprintf("revert(%s:%d,nb=%v)->%v@%d", p.Target, target, p.NotBlocked, after.Seq, after.Current))
@@ -592,7 +611,7 @@ func TestVerifC13(t *testing.T) {
 			ID: "C13", Engine: "reverts",
 			Gen: c13Gen,
 			Run: func(cs c13Case) (verifkit.Outcome, error) { return c13RunCase(c, cs) },
-			Floors: map[string]float64{"accepted": 0.6, "accepted-notblocked": 0.3, "accepted-blocking": 0.3, "nonadjacent": 0.15, "second-revert": 0.3,
+			Floors: map[string]float64{"accepted": 0.6, "accepted-notblocked": 0.3, "accepted-blocking": 0.3, "nonadjacent": 0.15, "second-revert": 0.3, "forward": 0.10, "blocking-revert-from-marked": 0.04,
 				"refused-current": 0.08, "refused-not-kept": 0.08, "refused-disabled": 0.05, "refused-no-previous": 0.03,
 				"offer-blocked": 0.2, "offer-taken": 0.2, "offer-taken-notblocked-revision": 0.1},
 			NonTrivialFloor: 0.3,
